@@ -82,6 +82,10 @@ def run(ctx):
             if rep.get("watcher_threads_left", 0) > 0:
                 ctx.violation(f"C15/watchers-left:{kind}", f"{rep['watcher_threads_left']} file-watcher thread(s) of dropped caches still exist after further "
                               "file events under the root", dict(kind=kind, seed=sd))
+            if rep.get("join_source_blocked", 0) > 0:
+                ctx.violation(f"C15/source-dropped-before-reloader:{kind}", f"{rep['join_source_blocked']} of 3 caches dropped their source while the reloader still "
+                              "held its event channel: a source that waits for that channel to close in its destructor blocks drop(cache) (3 s limit reached)",
+                              dict(kind=kind, seed=sd, waits_ms=rep.get("join_source_waits_ms")))
             if rep.get("watcher_threads_dotted", 0) > 0:
                 ctx.violation(f"C15/watchers-left-dotted:{kind}", f"{rep['watcher_threads_dotted']} file-watcher thread(s) of dropped caches survive modifications "
                               "of entries that have no asset id (dotted names)", dict(kind=kind, seed=sd))
